@@ -44,9 +44,17 @@ KERNEL = lambda: [L.Lexer.parse, L.Lexer.match_reg, L.Lexer.match, L.Lexer.match
                   L.Lexer.decode_raw_stream, PT.Text.__init__, PT.Comment.__init__]
 
 
-def run_lexer(s):
+PREPROCESSORS = {
+    None: None,
+    "prepend-banner": lambda t: "B:" + t,
+    "append-footer": lambda t: t + "\n:F",
+    "expand-shorthand": lambda t: t.replace("@", "${x}"),
+}
+
+
+def run_lexer(s, pre=None):
     """real Lexer.parse on SymStr `s` with span recording"""
-    lx = L.Lexer(s)
+    lx = L.Lexer(s, preprocessor=PREPROCESSORS[pre]) if pre else L.Lexer(s)
     rec = []  # (mp, start, end, new_position, matched_lineno, matched_charpos)
     orig = lx.match_reg
 
@@ -124,7 +132,7 @@ def pos_terms(s, mp):
     return line, mp - last
 
 
-def make_harness(n=None, skeleton=None):
+def make_harness(n=None, skeleton=None, pre=None):
     def h(p):
         if skeleton is None:
             s = sym_string(n)
@@ -136,8 +144,14 @@ def make_harness(n=None, skeleton=None):
                 else:
                     items.extend(part)
             s = SymStr(items)
-        r = run_lexer(s)
+        r = run_lexer(s, pre)
         p.tag("raised" if r["exc"] is not None else "parsed")
+        r["input"] = s
+        r["pre"] = pre
+        if pre:
+            # what the lexer is meant to lex is the preprocessed text
+            s = values.lift(PREPROCESSORS[pre](s))
+            r["s"] = s
         # the reference tokenizer runs on the same symbolic string, on the same path
         r["readings"] = tokenizer.readings(s.items)
         return r
@@ -205,7 +219,7 @@ def on_path(p, r, exc, acc):
                 elif st == "unknown":
                     acc.vcs_unknown += 1
     # ---- layer 3: differential replay of this path's witness on the unpatched real lexer
-    real = realproc.call("lex_structure", w)
+    real = realproc.call("lex_structure", r["input"].concretize(m) if r.get("pre") else w, r.get("pre"))
     if r["exc"] is not None:
         mine = ("exc", type(r["exc"]).__name__, r["exc"].lineno, r["exc"].pos)
     else:
@@ -304,7 +318,7 @@ def run(check, tier):
         "tag construction is replaced by a recording stub (tag attribute semantics: C05/C07/C11)",
         "reference tokenizer oracles/tokenizer.py states the expected output; where the statement is ambiguous it admits each reading "
         "(bare CR inside a ##/% line; newline after </%doc>; non-blank whitespace before a line-leading %%)")
-    check.not_claimed("strings longer than the bound that are not instances of a skeleton", "preprocessors",
+    check.not_claimed("strings longer than the bound that are not instances of a skeleton", "preprocessors other than the three modelled (prepend / append / expand)",
                       "polynomial degree of lexing time (only exponential ambiguity of regex loops is searched)")
     Lmax = {"quick": 4, "thorough": 6}[tier]
     tl = {"quick": 200, "thorough": 3000}[tier]
@@ -330,6 +344,11 @@ def run(check, tier):
         jobs.append(("C01-S-" + name, make_harness(skeleton=sk2),
                      "skeleton %s %r" % (name, ["?" * x if isinstance(x, int) else x for x in sk2]),
                      {"symbolic_chars": sum(x for x in sk2 if isinstance(x, int))}, ()))
+    for pre in PREPROCESSORS:
+        if pre:
+            k = {"quick": 2, "thorough": 3}[tier]
+            jobs.append(("C01-P-" + pre, make_harness(n=k, pre=pre), "preprocessor %s over %d symbolic characters" % (pre, k),
+                         {"symbolic_chars": k, "preprocessor": pre}, ("parsed",)))
     for j in jobs:
         driver.register(j[0], j[1], on_path)
     for name, _h, title, bounds, req in jobs:
